@@ -21,14 +21,16 @@ CHECKS = {
             "projection push-down into UNION branches; joining two Selects (projections stripped and re-applied, hidden "
             "columns guarded) yields exactly the join of the visible rows. The emitted SELECT text and its evaluation by the "
             "database are modelled and validated on SQLite, not proved.", "", "DESIGN.md 5/C02"),
-    "C03": (PR, "Lean 4 theorems: backtracking_sound (induction over trees using C04/C05 + locality of widened projections), apply_with_options_sound for every option combination + correspondence",
+    "C03": (PR, "Lean 4 theorems: backtracking_sound (induction over trees using C04/C05 + locality of widened projections), apply_with_options_sound (iteration engines) and apply_on_sql_target_sound (SQL-engine targets) for every option combination + correspondence",
             "Machine-checked for the unary operation classes between iteration engines, every tree, every option "
             "combination: backtrack_unary returns a well-formed relation that has (done) or yields under the operation "
             "(not done) the content of the operation applied at the root; apply(...) with any preferred_engine/backtrack/"
             "transfer/require options returns the columns and rows (values, multiplicity, order) of the plain application, "
-            "in the target's engine or (transfer=True only) the preferred one. Proof (partial): a Projection past a "
-            "Deduplication (finding F04) is excluded by hypothesis; joins and the SQL engine are validated by "
-            "correspondence + oracle. The proof attempt itself exposed three genuine defects, now repaired. " + CORR,
+            "in the target's engine or (transfer=True only) the preferred one; the same for a TARGET IN A SQL ENGINE (any raw "
+            "SQL tree incl. chains and joins) with a preferred engine of either family and every option combination "
+            "(apply_on_sql_target_sound, via the tree-building induction of C17). Proof (partial): a Projection past a "
+            "Deduplication (finding F04) is excluded by hypothesis; joins and back-tracking from an iteration-engine "
+            "target into a SQL engine are validated by correspondence + oracle. The proof attempt itself exposed three genuine defects, now repaired. " + CORR,
             "", "DESIGN.md 5/C03"),
     "C04": (PR, "Lean 4 theorem commute_sound_partial over all 49 operation-class pairs + machine-checked counterexample for the one unsound pair + correspondence",
             "Machine-checked for every pair of unary operations with arbitrary parameters, every target column set and "
